@@ -217,17 +217,26 @@ def eval_e2e(case, rng, thorough):
             ep.sisn = isn
     segkind = rng.choice(["records", "records", "random", "mss", "byte2", "tail1"])
     segs = tcpcap.segments(conn.events, ep, tcpcap.make_cutter(rng, segkind, conn.events))
+    tfo = False
+    if case["i"] % 6 == 5:      # TCP Fast Open: the first ClientHello segment travels on the SYN (which occupies one sequence number)
+        segs, tfo = tcpcap.add_tfo(segs, server=case["i"] % 12 == 11)
+        segkind += "+tfo" if tfo else ""
     base = list(segs)
     ndup = rng.choice([0, 0, 1, 2, 5])
     ndis = rng.choice([0, 1, 1, 2, 4])
     allow_first = case.get("first", False)
     pert = tcpcap.displace(tcpcap.add_duplicates(base, rng, ndup), rng, ndis, maxdist=rng.choice([1, 2, 4]), allow_first=allow_first)
+    across = 0
+    if case["i"] % 3 == 1:
+        # segments displaced past the other direction's reply (one capture queue per direction): the peer's acknowledgement is captured before the segment it covers
+        across = rng.choice([1, 2, 4])
+        pert = tcpcap.displace_across(pert, conn.events, rng, across, maxdist=rng.choice([1, 2, 3]))
     trig = any(first_displaced([s for s in pert if not s.dup], d) for d in "cs")
     fl = scene.tls_flow(conn, ep, pert)
     items = scene.stamp(scene.merge([fl], rng, "concat"), rng)
     res, files, argv = e2e.run_capture(scene.capture(items), scene.keylog_text([fl], rng))
-    out = {"cls": ["e2e", suites.VNAME[v], p["mode"], segkind, f"dup{min(ndup, 2)}", f"dis{min(ndis, 2)}", "wrap" if wrap else "", "first" if trig else ""],
-           "tags": [f"e2e:{segkind}", f"e2e:{'wrap' if wrap else 'nowrap'}", f"e2e:dup{ndup > 0}:dis{ndis > 0}"], "nontrivial": (ndup + ndis > 0 or wrap) and len(conn.truth["c"]) + len(conn.truth["s"]) > 0,
+    out = {"cls": ["e2e", suites.VNAME[v], p["mode"], segkind, f"dup{min(ndup, 2)}", f"dis{min(ndis, 2)}", "wrap" if wrap else "", "first" if trig else "", "across" if across else ""],
+           "tags": [f"e2e:{segkind}", f"e2e:{'wrap' if wrap else 'nowrap'}", f"e2e:dup{ndup > 0}:dis{ndis > 0}"], "nontrivial": (ndup + ndis + across > 0 or wrap or tfo) and len(conn.truth["c"]) + len(conn.truth["s"]) > 0,
            "sample": {"case": case["id"], "spec": e2e.describe_spec(spec), "segmentation": segkind, "duplicates": ndup, "displaced": ndis, "wrap": wrap,
                       "order": [(s.dir, s.woff, len(s.payload), "dup" if s.dup else "") for s in pert][:30]}}
     fail = e2e.run_failed(res)
@@ -369,7 +378,7 @@ def build(tier, seed):
     for i in range(64 if thorough else 16):
         cases.append({"id": f"perm-{i}", "kind": "perm"})
     for i in range(10000 if thorough else 500):
-        cases.append({"id": f"e2e-{i}", "kind": "e2e", "first": i % 5 == 0})
+        cases.append({"id": f"e2e-{i}", "kind": "e2e", "i": i, "first": i % 5 == 0})
 
     def evalfn(case):
         rng = random.Random(engine.subseed("C05", seed, case["id"]))
